@@ -83,8 +83,34 @@ func c02Ops() []c02op {
 }
 
 func init() {
-	Plans["C02"] = func(o Options) *Plan {
-		p := &Plan{Property: "C02"}
+	Plans["C02"] = func(o Options) *Plan { return c02Plan(o, "C02", "gonnx.H_C02") }
+	Plans["C17"] = func(o Options) *Plan {
+		p := c02Plan(o, "C17", "gonnx.H_C17")
+		for _, j := range p.Jobs {
+			j.Case["sample"] = ""
+		}
+		for _, s := range []struct {
+			name   string
+			inputs []string
+		}{{"mlp", []string{"data_input:2,3"}}, {"scaler", []string{"X:2,3"}}, {"gru", []string{"data_input:2,2,3", "init_hidden:1,2,5"}}} {
+			p.Jobs = append(p.Jobs, Job{Harness: "gonnx.H_C17", Case: map[string]interface{}{"sample": s.name, "inputs": s.inputs, "mode": "",
+				"ops": []string{}, "ins": []string{}, "outs": []string{}, "attrs": []string{}, "inits": []string{}, "outputs": []string{}, "inputsB": []string{}, "feedback": ""}})
+		}
+		p.Level = "other"
+		p.RaceHarness = "gonnx.H_C17_race"
+		p.Bounds = []string{
+			"the schedule quantifier is NOT explored: the property is discharged by reduction to a sequential frame condition, which is decided symbolically for every input value: on the C02 model set (single-node graphs for all 55 operators, every weight-capable input as initializer and as caller tensor, three multi-node graphs) and the sample models mlp/scaler/gru, after NewModel everything reachable from the *Model (struct fields, decoded ModelProto, parameter map, weight metadata and data) and every package-level variable of the gonnx packages is put under the interpreter's write monitor; loading a second model, three successful Runs with private inputs and one failing Run must perform no store, map update, in-place tensor operation (Reshape, T, Zero, SetAt, Memset, WithReuse) or Shape()-alias write on any of it",
+			"gonnx's SSA contains no go statement, channel operation or select (checked when the code is loaded: such instructions abort the run)",
+		}
+		p.Outside = []string{"the interleavings themselves (2..16 goroutines): not modelled; the claim follows from the frame condition and the Go memory model (concurrent reads are not a data race)", "gorgonia's read-only API (Shape, Data, Slice, At, Clone, Iterator, arithmetic without WithReuse) is assumed not to write its receiver, and its internal pools to be goroutine safe"}
+		p.Explanation = "Reduction: if a single Run, for every input, writes nothing reachable from the Model nor any package-level variable, concurrent Runs with private inputs only read shared memory, hence are race free and each computes what it computes alone. The frame condition is decided by symbolic execution of NewModel/Run with a write monitor over the shared object graph; it is a sequential, per-input-universal statement. What is not checked is the step from the frame condition to all schedules (Go memory model) and gorgonia's internals."
+		return p
+	}
+}
+
+func c02Plan(o Options, prop, harness string) *Plan {
+	{
+		p := &Plan{Property: prop}
 		for _, c := range c02Ops() {
 			for _, variant := range []string{"caller", "weights"} {
 				var inputs, inits, inputsB []string
@@ -128,7 +154,7 @@ func init() {
 				cm["inputsB"] = inputsB
 				cm["mode"] = c.mode
 				cm["feedback"] = fb
-				p.Jobs = append(p.Jobs, Job{Harness: "gonnx.H_C02", Case: cm})
+				p.Jobs = append(p.Jobs, Job{Harness: harness, Case: cm})
 			}
 		}
 		// multi-node graphs from C01 (binding shapes) under the same history
@@ -146,7 +172,7 @@ func init() {
 			cm["inputsB"] = inputs
 			cm["mode"] = ""
 			cm["feedback"] = ""
-			p.Jobs = append(p.Jobs, Job{Harness: "gonnx.H_C02", Case: cm})
+			p.Jobs = append(p.Jobs, Job{Harness: harness, Case: cm})
 		}
 		p.Bounds = []string{
 			"one inductive step plus a concrete history: for each model, Run(A), a failing Run (an input missing), Run(B) (other values, for several operators another batch size) compared with a freshly loaded model, Run(A) again with the very same tensor objects compared with the first result, and a Run fed with an output of the first Run; after every Run the caller's tensors and every weight are compared with snapshots (shape, strides, dtype, elements) and the frame monitor must have seen no write to them",
